@@ -63,3 +63,43 @@ Example C11_example :
   let norm := table [("a-b", "AB"); ("a_b", "AB"); ("c", "C")] in
   enum_constants norm (fun s => s) ["a-b"; "a_b"; "c"] ["a-b"; "a_b"; "c"] = [("AB", "a-b"); ("AB1", "a_b"); ("C", "c")].
 Proof. vm_compute. reflexivity. Qed.
+
+(** The cross-enum conflict pass (Model/EnumConflict.v, proofs in Proofs/EnumConflictProofs.v). *)
+From V Require Import Model.EnumConflict Proofs.EnumConflictProofs.
+
+Theorem C11_conflict_pass_keeps_enums : forall always types enums, map fst (resolve always types enums) = enums.
+Proof. exact resolve_keeps_enums. Qed.
+Print Assumptions C11_conflict_pass_keeps_enums.
+
+(** nothing clashes -> nothing is renamed *)
+Theorem C11_no_clash_no_prefix : forall types enums,
+  pairwise_disjoint enums -> Forall (fun e => quiet types e = true) enums ->
+  resolve false types enums = map (fun e => (e, false)) enums.
+Proof. exact no_clash_no_prefix. Qed.
+Print Assumptions C11_no_clash_no_prefix.
+
+(** clashes between two enums, and between an enum and a type name, are resolved by prefixing *)
+Theorem C11_shared_name_prefixes_both : forall types e1 e2,
+  shares (snd e1) (snd e2) = true -> map snd (resolve false types [e1; e2]) = [true; true].
+Proof. exact shared_name_prefixes_both. Qed.
+Print Assumptions C11_shared_name_prefixes_both.
+
+Theorem C11_type_name_clash_prefixes : forall types e,
+  existsb (fun tp => mem tp (snd e)) types = true \/ mem (fst e) (snd e) = true ->
+  map snd (resolve false types [e]) = [true].
+Proof. exact type_name_clash_prefixes. Qed.
+Print Assumptions C11_type_name_clash_prefixes.
+
+(** "all constant names in the package are distinct" is REFUTED for three enums (single sweep) and for type
+    names one of which is a prefix of the other; both reproduced on the real code (known findings). *)
+Theorem C11_single_sweep_refuted :
+  let enums := [("Color", ["Red"]); ("Dpaint", ["ColorRed"]); ("Light", ["Red"])]%string in
+  map snd (resolve false [] enums) = [true; false; true] /\ ~ NoDup (constants (resolve false [] enums)).
+Proof. exact single_sweep_refuted. Qed.
+Print Assumptions C11_single_sweep_refuted.
+
+Theorem C11_prefix_ambiguity_refuted :
+  let enums := [("A", ["BRed"; "X"]); ("AB", ["Red"; "X"])]%string in
+  map snd (resolve false [] enums) = [true; true] /\ ~ NoDup (constants (resolve false [] enums)).
+Proof. exact prefix_ambiguity_refuted. Qed.
+Print Assumptions C11_prefix_ambiguity_refuted.
